@@ -6,6 +6,7 @@
    the model contains; the module's 10^40 bound is therefore not a hypothesis.  Dec values (the
    fee rate) are their 10^18-scaled integers; P18 = 10^18. *)
 From Comdex Require Import Lib.Base Lib.DecArith Lib.DecFacts Model.Pool Proofs.PoolProofs.
+From Comdex Require Model.Liquidity Model.LiquidityWitness.
 
 (* A deposit never takes more of either coin than was offered. *)
 Theorem c06_deposit_bounded : forall rx ry ps x y ax ay pc,
@@ -199,3 +200,66 @@ Example c06_ranged_price_ideal_ex :
   (* x = 1, y = 1/3, sqrt M = 1, sqrt L = 2, sqrt K = 2: a = 2, b = 1, (1+2)(1/3+1) = 4; price 9/4 *)
   ((1 + 2 * 1) * ((1 # 3) + 1) == 2 * 2)%Q /\ (1 * 1 * ((1 # 3) + 1) <= 1 + 2 * 1)%Q /\ (1 * 2 == 2)%Q.
 Proof. split; [vm_compute; reflexivity|]. split; [vm_compute; discriminate|vm_compute; reflexivity]. Qed.
+
+Local Close Scope Q_scope.
+Local Open Scope Z_scope.
+
+(* ---------- through the keeper: shares of another pool are never accepted ----------
+   A pool message names (app id, pool id) and carries a pool coin; the keeper (ValidateMsgWithdraw / Farm / Unfarm /
+   UnfarmAndWithdraw, modelled by [Liquidity.pool_coin_check]) accepts it only when the coin is the pool's own
+   "pool<app>-<pool>" ([Liquidity.pool_denom]).  The pool coin of ANOTHER app's pool with the same pool id is a
+   different denom, and a message carrying any other denom leaves the whole state - reserves and share supply of
+   every pool included - unchanged.  Together with c06_share_value_monotone (reserves per share over the deposits
+   and withdrawals executed on a pool) this is what the keeper-level workload judges on the real keeper after every
+   step: [holds_C06_untouched] for every pool on which the step executed no request, [holds_C06_value] otherwise. *)
+Theorem c06_foreign_pool_coin_rejected : forall s app owner pid dn amt now x y,
+  dn <> Liquidity.pool_denom app pid ->
+  Liquidity.apply_op s (Liquidity.OWithdraw app owner pid dn amt) = s /\
+  Liquidity.apply_op s (Liquidity.OFarm app owner pid dn amt now) = s /\
+  Liquidity.apply_op s (Liquidity.OUnfarm app owner pid dn amt) = s /\
+  Liquidity.apply_op s (Liquidity.OUnfarmAndWithdraw app owner pid dn amt x y) = s.
+Proof.
+  intros s app owner pid dn amt now x y Hd.
+  assert (C : forall en, match Liquidity.pool_coin_check s app pid dn en with Ok _ => False | _ => True end).
+  { intros en. unfold Liquidity.pool_coin_check. destruct (negb (Liquidity.has_app s app)); [exact I|].
+    destruct (Liquidity.find_pool app pid (Liquidity.pools s)); [|exact I].
+    destruct (en && Liquidity.pl_disabled p); [exact I|]. destruct (Z.eqb_spec dn (Liquidity.pool_denom app pid)); [contradiction|exact I]. }
+  unfold Liquidity.apply_op. cbn [Liquidity.step].
+  unfold Liquidity.withdraw_msg, Liquidity.farm_msg, Liquidity.unfarm_msg, Liquidity.unfarm_and_withdraw_msg, obind.
+  repeat split.
+  - destruct (_ || _); [reflexivity|]. pose proof (C true) as H. destruct (Liquidity.pool_coin_check s app pid dn true); [contradiction|reflexivity|reflexivity].
+  - destruct (_ || _); [reflexivity|]. pose proof (C false) as H. destruct (Liquidity.pool_coin_check s app pid dn false); [contradiction|reflexivity|reflexivity].
+  - destruct (_ || _); [reflexivity|]. pose proof (C false) as H. destruct (Liquidity.pool_coin_check s app pid dn false); [contradiction|reflexivity|reflexivity].
+  - destruct (_ || _); [reflexivity|]. pose proof (C false) as H. destruct (Liquidity.pool_coin_check s app pid dn false); [contradiction|reflexivity|reflexivity].
+Qed.
+Print Assumptions c06_foreign_pool_coin_rejected.
+
+(* the pool coins of two different pools are different denoms (pool ids below 100 in the encoding of the model) *)
+Theorem c06_pool_coin_injective : forall a p a' p', 0 <= p < 100 -> 0 <= p' < 100 ->
+  Liquidity.pool_denom a p = Liquidity.pool_denom a' p' -> a = a' /\ p = p'.
+Proof. unfold Liquidity.pool_denom. intros. lia. Qed.
+Print Assumptions c06_pool_coin_injective.
+
+(* deposit coins outside the pool's pair are rejected as well: nothing changes *)
+Theorem c06_foreign_deposit_rejected : forall s app owner pid cs pl pr now ax ay pc,
+  Liquidity.find_pool app pid (Liquidity.pools s) = Some pl -> Liquidity.pool_pair s pl = Some pr ->
+  existsb (fun c => negb (fst c =? Liquidity.p_base pr) && negb (fst c =? Liquidity.p_quote pr)) cs = true ->
+  Liquidity.apply_op s (Liquidity.ODeposit app owner pid cs) = s /\
+  Liquidity.apply_op s (Liquidity.ODepositAndFarm app owner pid cs now ax ay pc) = s.
+Proof.
+  intros s app owner pid cs pl pr now ax ay pc Hp Hr He.
+  assert (C : match Liquidity.deposit_coins s app pid cs with Ok _ => False | _ => True end).
+  { unfold Liquidity.deposit_coins. destruct (_ || _); [exact I|]. destruct (negb (Liquidity.has_app s app)); [exact I|].
+    rewrite Hp. destruct (Liquidity.pl_disabled pl); [exact I|]. rewrite Hr, He. exact I. }
+  unfold Liquidity.apply_op. cbn [Liquidity.step]. unfold Liquidity.deposit_msg, Liquidity.deposit_and_farm_msg, obind.
+  destruct (Liquidity.deposit_coins s app pid cs); [contradiction|split; reflexivity|split; reflexivity].
+Qed.
+Print Assumptions c06_foreign_deposit_rejected.
+
+(* non-vacuity: the creator of pool 1 of app 1 (1000000 shares, denom 1101) and a message that names app 1 / pool 1
+   with the shares of pool 1 of app 2 (denom 1201): rejected; with its own shares: accepted *)
+Example c06_foreign_pool_coin_ex :
+  Liquidity.pool_denom 2 1 <> Liquidity.pool_denom 1 1 /\
+  is_ok (Liquidity.step LiquidityWitness.w_pool_pending (Liquidity.OWithdraw 1 90 1 1201 500000)) = false /\
+  is_ok (Liquidity.step LiquidityWitness.w_pool_pending (Liquidity.OWithdraw 1 90 1 1101 500000)) = true.
+Proof. split; [vm_compute; discriminate|]. split; vm_compute; reflexivity. Qed.
